@@ -5,6 +5,7 @@ package main
 
 import (
 	"fmt"
+	"math/big"
 	"os"
 	"sort"
 	"strings"
@@ -120,9 +121,27 @@ func (t *Term) selectBody() string {
 	n := len(t.tab.vals)
 	lit := func(w int, v uint64) string {
 		if w == IntW {
-			return fmt.Sprint(v)
+			return intLit(big.NewInt(int64(v)))
 		}
 		return bvLit(w, v)
+	}
+	if idx.w == IntW {
+		// restrict the chain to the feasible index range
+		lo, hi := 0, n-1
+		if idx.lo.IsInt64() && int(idx.lo.Int64()) > lo {
+			lo = int(idx.lo.Int64())
+		}
+		if idx.hi.IsInt64() && int(idx.hi.Int64()) < hi {
+			hi = int(idx.hi.Int64())
+		}
+		for i := lo; i < hi; i++ {
+			fmt.Fprintf(&sb, "(ite (= %s %d) %s ", idx.ref(), i, lit(t.w, t.tab.vals[i]))
+		}
+		sb.WriteString(lit(t.w, t.tab.vals[hi]))
+		for i := lo; i < hi; i++ {
+			sb.WriteString(")")
+		}
+		return sb.String()
 	}
 	for i := 0; i < n-1; i++ {
 		fmt.Fprintf(&sb, "(ite (= %s %s) %s ", idx.ref(), lit(idx.w, uint64(i)), lit(t.w, t.tab.vals[i]))
@@ -138,6 +157,20 @@ func (t *Term) selectBody() string {
 func (r *Run) selectTerm(elems []Value, idx *Term, lo, n int) *Term {
 	ts := r.ts
 	if ts.intMode {
+		allc := true
+		for i := lo; i < lo+n; i++ {
+			if !elems[i].(*Term).IsConst() {
+				allc = false
+				break
+			}
+		}
+		if allc && n > 1 {
+			vals := make([]uint64, lo+n)
+			for i := lo; i < lo+n; i++ {
+				vals[i] = uint64(elems[i].(*Term).bk.Int64())
+			}
+			return ts.ISelect(internTable(vals, IntW), idx)
+		}
 		var res *Term
 		for i := lo + n - 1; i >= lo; i-- {
 			e := elems[i].(*Term)
